@@ -56,6 +56,6 @@ Theorem C15_access_discipline :
      \/ published a b = true \/ published b a = true
      \/ same_thread a b = true
      \/ exempt exemptions a b = true)
-  /\ acyclic lock_order = true /\ reacquire_count = 0%N.
+  /\ (forall first ws, ws <> [] -> ~ wait_chain lock_order first first ws) /\ reacquire_count = 0%N.
 Proof. exact access_discipline. Qed.
 Print Assumptions C15_access_discipline.
